@@ -112,9 +112,26 @@ func RunVV(c *Ctx, cases []*VVCase, batch int, what string, compareData bool) *V
 		}
 		res, err := RunTLC(fmt.Sprintf("%s.vv%d", c.ID, i/batch), TLCJob{Module: "RefineVV", Cfg: "RefineVV.cfg",
 			Data: map[string][]byte{"vvcases.ndjson": nd.Bytes()}, Workers: c.Workers, Timeout: 30 * time.Minute, HeapGB: 12})
-		if err != nil || !res.Clean() {
-			c.Fatal("RefineVV run failed: %v\n%s", err, tail(res.Output, 3000))
+		if err != nil {
+			c.Fatal("RefineVV run failed: %v", err)
 			return st
+		}
+		if !res.Clean() {
+			// as in runRefineBatch: divergences printed before the run stopped are kept (and confirmed alone)
+			found := 0
+			for _, m := range reDiverged.FindAllStringSubmatch(res.Output, -1) {
+				if _, ok := st.Bad[m[3]]; !ok || m[1] == "DIVERGED" {
+					st.Bad[m[3]] = m[1]
+					found++
+				}
+			}
+			if found == 0 {
+				c.Fatal("RefineVV run failed: %v\n%s", err, tail(res.Output, 3000))
+				return st
+			}
+			fmt.Printf("note: a RefineVV batch did not finish (timedout=%v); %d divergences found before that are reported\n", res.TimedOut, found)
+			st.Cases += j - i
+			continue
 		}
 		st.Cases += j - i
 		st.States += res.Distinct
